@@ -656,7 +656,12 @@ fn oracle_case(case: &Case, obs: &[&str], st: &mut OracleStats, case_no: usize, 
     let mut rev_no = 0u64;
     let mut first_value_rev: Option<u64> = None;
     let mut fail = |st: &mut OracleStats, i: usize, msg: String| {
-        if st.failures.len() < 50 {
+        // keep the first few failures of every distinct key (so that a rare key is never hidden
+        // behind a frequent one) and count all of them per key
+        let key = msg.split(' ').next().unwrap_or("key=?").to_string();
+        let c = st.hist.entry(format!("fail:{}", key)).or_default();
+        *c += 1;
+        if *c <= 3 {
             st.failures.push(format!("case={} op#{} line={} `{}`: {}", case_no, i, line0 + i + 1, case.ops[i].to_line(), msg));
         } else {
             st.failures.push(String::new());
@@ -727,6 +732,13 @@ fn oracle_case(case: &Case, obs: &[&str], st: &mut OracleStats, case_no: usize, 
                         continue;
                     }
                 }
+                if main == "panic:backdate-violation" {
+                    // salsa's own debug-build consistency panic on a deterministic, fully tracked
+                    // program: the request panics instead of returning the from-scratch value
+                    fail(st, i, format!("key=backdate-violation-panic request of a deterministic program panicked: `{}`", main));
+                    poisoned_rev = true;
+                    continue;
+                }
                 if cyclic {
                     let want = &cyclic_reference(&env, 200)[*q];
                     let ok = match want {
@@ -750,10 +762,11 @@ fn oracle_case(case: &Case, obs: &[&str], st: &mut OracleStats, case_no: usize, 
                         // finalised results instead of its own fallback (known finding C13/kf1)
                         let mut key = "cyclic-value";
                         if case.prog.nodes[*q].0 == Kind::Fb && main.starts_with("v=") && fb_seen_in_earlier_rev {
-                            if let Outcome::Val(v) = want {
-                                if v.n == FB_BASE + *q as u32 {
-                                    key = "fb-participant-after-revalidated-head";
-                                }
+                            // (the wrong participant value also propagates to its readers, so any
+                            // value mismatch of a fallback program in a later revision has this key;
+                            // first-revision evaluations are never excused)
+                            if let Outcome::Val(_) = want {
+                                key = "fb-participant-after-revalidated-head";
                             }
                         }
                         fail(st, i, format!("key={} got `{}` want {:?}", key, main, want));
